@@ -991,8 +991,8 @@ impl<'e> Body<'e> {
     }
 
     fn atomic_stmt(&mut self, depth: u32) {
-        let Some(m) = self.pick_shared_mem() else { return self.emit(I::AtomicFence) };
         self.uses_atomics = true;
+        let Some(m) = self.pick_shared_mem() else { return self.emit(I::AtomicFence) };
         match self.rng.below(4) {
             0 => {
                 self.addr(m, depth);
